@@ -150,6 +150,7 @@ class OpSite:
     constant: Optional[ast.expr]
     out: Optional[ast.expr]
     why_unresolved: str = ""
+    conds: Optional[List[ast.expr]] = None   # virtual site (one per path): the branch conditions that hold on that path
 
 
 def _wrapped_op_annotation(run, fi: FunctionInfo) -> Optional[ClassInfo]:
@@ -231,10 +232,104 @@ def op_sites(run) -> List[OpSite]:
                     op_kwargs = _local_dict_keys(fi, ok_)
                     if op_kwargs is None:
                         open_ = True
-            out.append(OpSite(fi, n, n.func.attr, op_expr, op_cls, tensors, star, op_args, op_kwargs, open_,
-                              kw(n, "constant"), kw(n, "out"), why))
+            site = OpSite(fi, n, n.func.attr, op_expr, op_cls, tensors, star, op_args, op_kwargs, open_,
+                          kw(n, "constant"), kw(n, "out"), why)
+            virt = _expand_selector_locals(run, fx, opbase, site) if (op_cls is None and isinstance(op_expr, ast.Name)) or any(
+                isinstance(a, ast.Starred) and isinstance(a.value, ast.Name) for a in n.args[1:]) else None
+            if virt:
+                out.extend(virt)
+            else:
+                out.append(site)
     out.sort(key=lambda s: (s.fi.qualname, s.call.lineno, s.call.col_offset))
     return out
+
+
+def _expand_selector_locals(run, fx, opbase, site: "OpSite") -> Optional[List["OpSite"]]:
+    """`Op, operands = Power, (self, other)` ... `if other == 1: Op, operands = Positive, (self,)` ... `self._in_place_op(Op, *operands)`:
+    the operation and its operands are chosen into locals first and one call serves every choice.  The call is expanded into one *virtual* site per
+    acyclic path that reaches it (bounded), with the locals replaced by the values last assigned on that path and with the branch conditions of
+    the path attached -- the same facts the several-call spelling states syntactically.  None if any path leaves a selector unresolved."""
+    import networkx as nx
+    from ..cfg import CFG, ENTRY as _E
+    from ..normal import _negate, _clone
+    fi, call = site.fi, site.call
+    params = set(fi.params())
+    sel = set()
+    if isinstance(site.op_expr, ast.Name) and site.op_cls is None and site.op_expr.id not in params:
+        sel.add(site.op_expr.id)
+    for a in call.args[1:]:
+        if isinstance(a, ast.Starred) and isinstance(a.value, ast.Name) and a.value.id not in params:
+            sel.add(a.value.id)
+    if not sel:
+        return None
+    try:
+        cfg = CFG(fi.node)
+    except Exception:  # noqa
+        return None
+    target = cfg.stmt_node_containing(call)
+    if target is None:
+        return None
+    paths = []
+    try:
+        for p in nx.all_simple_paths(cfg.g, _E, target, cutoff=60):
+            paths.append(p)
+            if len(paths) > 64:
+                return None
+    except Exception:  # noqa
+        return None
+    out, seen = [], set()
+    for p in paths:
+        env: Dict[str, ast.expr] = {}
+        conds: List[ast.expr] = []
+        for a_, b_ in zip(p, p[1:]):
+            st = cfg.stmt.get(a_)
+            if st is None:
+                continue
+            if cfg.label.get(a_) in ("If", "While") and isinstance(st, ast.expr):
+                kinds = cfg.g[a_][b_]["kinds"]
+                if "true" in kinds and "false" not in kinds:
+                    conds.extend(st.values if isinstance(st, ast.BoolOp) and isinstance(st.op, ast.And) else [st])
+                elif "false" in kinds and "true" not in kinds:
+                    vals = st.values if isinstance(st, ast.BoolOp) and isinstance(st.op, ast.Or) else [st]
+                    conds.extend(_negate(_clone(v)) for v in vals)
+                continue
+            if isinstance(st, ast.Assign) and len(st.targets) == 1:
+                t, v = st.targets[0], st.value
+                if isinstance(t, ast.Name) and t.id in sel:
+                    env[t.id] = v
+                elif isinstance(t, ast.Tuple) and isinstance(v, ast.Tuple) and len(t.elts) == len(v.elts):
+                    for te, ve in zip(t.elts, v.elts):
+                        if isinstance(te, ast.Name) and te.id in sel:
+                            env[te.id] = ve
+                elif any(isinstance(x, ast.Name) and x.id in sel for x in ast.walk(t)):
+                    return None
+            elif isinstance(st, (ast.AugAssign, ast.For, ast.With)) and any(isinstance(x, ast.Name) and x.id in sel and isinstance(x.ctx, ast.Store) for x in ast.walk(st)):
+                return None
+        if not all(k in env for k in sel):
+            return None
+        op_expr = env.get(site.op_expr.id, site.op_expr) if isinstance(site.op_expr, ast.Name) else site.op_expr
+        r = fx.resolve_in(fi, op_expr)
+        op_cls = r if isinstance(r, ClassInfo) and r.is_subclass_of(opbase) else site.op_cls
+        if op_cls is None:
+            return None
+        tensors, star = [], False
+        for a in call.args[1:]:
+            if isinstance(a, ast.Starred) and isinstance(a.value, ast.Name) and a.value.id in env:
+                v = env[a.value.id]
+                if not isinstance(v, (ast.Tuple, ast.List)) or any(isinstance(e, ast.Starred) for e in v.elts):
+                    return None
+                tensors.extend(v.elts)
+            elif isinstance(a, ast.Starred):
+                star = True
+            else:
+                tensors.append(a)
+        key = (norm(op_expr), tuple(norm(t) for t in tensors), tuple(sorted(norm(c) for c in conds)))
+        if key in seen:
+            continue
+        seen.add(key)
+        out.append(OpSite(fi, call, site.kind, op_expr, op_cls, tensors, star, site.op_args, site.op_kwargs, site.kwargs_open,
+                          site.constant, site.out, "", conds))
+    return out or None
 
 
 def _dict_literal(v: ast.expr):
